@@ -1341,6 +1341,28 @@ class Interp:
             return o.with_(kind="zoned", zone=tz.key_, tag="converted")
         raise Unsupported("astimezone without a zone")
 
+    def _bisect(self, a, k, left):
+        """bisect.bisect_left / bisect_right on a list, with the interpreter's own order."""
+        if set(k) - {"lo", "hi"} or len(a) not in (2, 3, 4) or not isinstance(a[0], list):
+            raise Unsupported(f"bisect({a!r}, {sorted(k)})")
+        seq, x = a[0], a[1]
+        lo = a[2] if len(a) > 2 else k.get("lo", 0)
+        hi = a[3] if len(a) > 3 else k.get("hi")
+        hi = len(seq) if hi is None else hi
+        if not isinstance(lo, int) or not isinstance(hi, int) or lo < 0:
+            raise Unsupported("bisect bounds")
+        while lo < hi:
+            mid = (lo + hi) // 2
+            if left:
+                go_right = self.truth(self.compare(ast.Lt(), seq[mid], x))
+            else:
+                go_right = not self.truth(self.compare(ast.Lt(), x, seq[mid]))
+            if go_right:
+                lo = mid + 1
+            else:
+                hi = mid
+        return lo
+
     def _deque(self, i, a, k):
         if k or len(a) > 1:
             raise Unsupported("deque(...) with maxlen")
@@ -3178,6 +3200,9 @@ class Interp:
                     return Native("Counter", self._counter)
                 if r[1] == "collections.deque":
                     return Native("deque", self._deque)
+                if r[1] in ("bisect.bisect_right", "bisect.bisect", "bisect.bisect_left"):
+                    left = r[1].endswith("_left")
+                    return Native(r[1], lambda i, a, k, left=left: self._bisect(a, k, left))
                 if r[1] in ("itertools", "functools", "operator", "collections"):
                     return NativeObj(r[1])
                 if r[1].startswith(("itertools.", "functools.", "operator.")):
